@@ -78,6 +78,19 @@ Example c09_regression_update_raw_section :
   end = true.
 Proof. vm_compute. split; reflexivity. Qed.
 
+(* DetachSummaryViewSection(4) on the raw section of T_summary_B is refused as well (811c657); on the page
+   section 5 it makes a plain table 3 (columns 8 B, 9 count, 10 group) and moves the section and its fields there;
+   T_summary_B, left with its raw section only, is auto-removed *)
+Example c09_regression_detach_raw_section :
+  match run_bundle [ODetach 4 9 [0; 0; 2] [(10, 1)] [(7, 8); (8, 9)]] c09_before with
+  | Fail => true | _ => false end = true /\
+  match run_bundle [ODetach 5 9 [0; 0; 2] [(10, 1)] [(9, 8); (10, 9)]] c09_before with
+  | Ok m => RefsResolve m && negb (mem 2 (tids m)) && mem 3 (tids m) &&
+            existsb (fun s => (s_id s =? 5) && (s_table s =? 3)) (m_sections m)
+  | _ => false
+  end = true.
+Proof. vm_compute. split; reflexivity. Qed.
+
 (* the auto-removal loop really iterates: table N (3) gets a reference column g (9) to the SUMMARY table 2 that
    shows its column B (4) through the display helper column 10.  Removing the summary table's only widget:
    round 1 removes the summary table, which converts g and clears its displayCol; only then is the helper
